@@ -17,7 +17,7 @@ pub trait RnCase {
 fn name_ok(p: &[u8], off: usize, out: &[u8], ooff: usize, target: &[u8], source: &[u8], suffix: bool) -> bool {
     let mut w = [0u8; 256];
     let wl = spec::name_wire(p, off, &mut w);
-    let mut e = [0u8; 600];
+    let mut e = [0u8; 256];
     match spec::rename_expected(&w[..wl], target, source, suffix, &mut e) {
         spec::Renamed::Unchanged => spec::names_eq(p, off, out, ooff, true),
         spec::Renamed::To(l) => spec::name_is(out, ooff, &e[..l], true),
@@ -28,7 +28,7 @@ fn name_ok(p: &[u8], off: usize, out: &[u8], ooff: usize, target: &[u8], source:
 fn name_too_long(p: &[u8], off: usize, target: &[u8], source: &[u8], suffix: bool) -> bool {
     let mut w = [0u8; 256];
     let wl = spec::name_wire(p, off, &mut w);
-    let mut e = [0u8; 600];
+    let mut e = [0u8; 256];
     spec::rename_expected(&w[..wl], target, source, suffix, &mut e) == spec::Renamed::TooLong
 }
 
